@@ -379,3 +379,203 @@ Section AssocLemmas.
         * apply IH; [assumption|]. intros H. apply Hnot. now right.
   Qed.
 End AssocLemmas.
+
+(* ---------- the equalities ---------- *)
+Lemma Forall_Forall2_refl {A} (R : A -> A -> Prop) (l : list A) :
+  Forall (fun x => R x x) l -> Forall2 R l l.
+Proof. induction 1; constructor; auto. Qed.
+
+Lemma json_equiv_refl a : json_equiv a a.
+Proof.
+  induction a as [| | | |l IH|m IH] using json_ind'; try constructor.
+  - now apply Forall_Forall2_refl.
+  - tauto.
+  - intros k u v Hu Hv. rewrite Hu in Hv. inversion Hv; subst v.
+    apply obj_get_Some_in in Hu. rewrite Forall_forall in IH. exact (IH _ Hu).
+Qed.
+
+(* characterisation of the two object loops of [json_eqb], for any value relation *)
+Lemma obj_subb_spec {A B} (f : A -> B -> bool) (y : list (bytes * B)) l :
+  forall seen,
+    obj_subb f y seen l = true <->
+    (forall k x, obj_get k l = Some x -> ~ In k seen ->
+                 exists x', obj_get k y = Some x' /\ f x x' = true).
+Proof.
+  induction l as [|[k0 x0] r IH]; intros seen; simpl.
+  - split; [discriminate|reflexivity].
+  - rewrite andb_true_iff, IH. split.
+    + intros [H1 H2] k x Hget Hseen.
+      destruct (beq_bytes_spec k k0) as [->|Hne].
+      * inversion Hget; subst x0.
+        destruct (memb k0 seen) eqn:Em; [apply memb_In in Em; contradiction|].
+        destruct (obj_get k0 y) as [x'|]; [|discriminate]. eauto.
+      * apply (H2 k x Hget). simpl. intros [E|E]; [congruence|contradiction].
+    + intros H. split.
+      * destruct (memb k0 seen) eqn:Em; [reflexivity|].
+        destruct (H k0 x0) as [x' [Hy Hf]].
+        -- now rewrite beq_bytes_refl.
+        -- intros Hin. apply memb_In in Hin. congruence.
+        -- now rewrite Hy.
+      * intros k x Hget Hseen. apply (H k x).
+        -- destruct (beq_bytes_spec k k0) as [->|Hne]; [|assumption].
+           exfalso. apply Hseen. now left.
+        -- intros Hin. apply Hseen. now right.
+Qed.
+
+Lemma keys_subb_spec {A B} (x : list (bytes * A)) (y : list (bytes * B)) :
+  forallb (fun kv => obj_mem (fst kv) x) y = true <->
+  (forall k, obj_get k x = None -> obj_get k y = None).
+Proof.
+  rewrite forallb_forall. split.
+  - intros H k Hx. apply obj_get_None_notin. intros Hin.
+    apply in_map_iff in Hin. destruct Hin as [[k' v] [E Hin]]. simpl in E. subst k'.
+    specialize (H _ Hin). simpl in H. unfold obj_mem in H. now rewrite Hx in H.
+  - intros H [k v] Hin. simpl. unfold obj_mem.
+    destruct (obj_get k x) eqn:Ex; [reflexivity|].
+    apply H in Ex. apply obj_get_None_notin in Ex. exfalso. apply Ex.
+    change (In (fst (k, v)) (map fst y)). now apply in_map.
+Qed.
+
+Theorem json_eqb_equiv a : forall b, json_eqb a b = true <-> json_equiv a b.
+Proof.
+  induction a as [|x0|x0|x0|l IH|m IH] using json_ind'; intros b.
+  - destruct b; simpl; split; intros H; try discriminate; try constructor; inversion H.
+  - destruct b as [|b'| | | |]; simpl; split; intros H; try discriminate; try (now inversion H).
+    + apply Bool.eqb_prop in H. subst. constructor.
+    + inversion H; subst. apply Bool.eqb_reflx.
+  - destruct b as [| |n'| | |]; simpl; split; intros H; try discriminate; try (now inversion H).
+    + apply beq_bytes_eq in H. subst. constructor.
+    + inversion H; subst. apply beq_bytes_refl.
+  - destruct b as [| | |s'| |]; simpl; split; intros H; try discriminate; try (now inversion H).
+    + apply beq_bytes_eq in H. subst. constructor.
+    + inversion H; subst. apply beq_bytes_refl.
+  - destruct b as [| | | |l'|]; simpl; try (split; intros H; [discriminate|now inversion H]).
+    assert (Hl : forall2b json_eqb l l' = true <-> Forall2 json_equiv l l').
+    { clear -IH. revert l'. induction l as [|x r IHr]; intros [|y r']; simpl.
+      - split; [constructor|reflexivity].
+      - split; [discriminate|intros H; inversion H].
+      - split; [discriminate|intros H; inversion H].
+      - inversion IH as [|? ? Hx Hr]; subst. rewrite andb_true_iff, (Hx y), (IHr Hr r').
+        split; [intros [? ?]; now constructor|intros H; inversion H; auto]. }
+    rewrite Hl. split; [now constructor|now inversion 1].
+  - destruct b as [| | | | |m']; simpl; try (split; intros H; [discriminate|now inversion H]).
+    rewrite andb_true_iff, obj_subb_spec, keys_subb_spec.
+    rewrite Forall_forall in IH.
+    split.
+    + intros [Hsub Hkeys]. constructor.
+      * intros k. split; [apply Hkeys|].
+        intros Hy. destruct (obj_get k m) as [u|] eqn:Ex; [|reflexivity].
+        destruct (Hsub k u Ex) as [v' [Hv' _]]; [tauto|congruence].
+      * intros k u v Hu Hv. destruct (Hsub k u Hu) as [v' [Hv' Hf]]; [tauto|].
+        rewrite Hv in Hv'. inversion Hv'; subst v'.
+        apply (IH (k, u)); [now apply obj_get_Some_in|assumption].
+    + intros H. inversion H as [| | | | |? ? Hnone Hrel]; subst. split.
+      * intros k u Hu _. destruct (obj_get k m') as [v|] eqn:Ev.
+        -- exists v. split; [reflexivity|].
+           apply (IH (k, u)); [now apply obj_get_Some_in|]. eapply Hrel; eauto.
+        -- apply Hnone in Ev. congruence.
+      * intros k. apply Hnone.
+Qed.
+
+Corollary json_eqb_refl a : json_eqb a a = true.
+Proof. apply json_eqb_equiv, json_equiv_refl. Qed.
+
+Theorem json_beq_eq a : forall b, json_beq a b = true <-> a = b.
+Proof.
+  induction a as [|x0|x0|x0|l IH|m IH] using json_ind'; intros b.
+  - destruct b; simpl; split; intros H; try discriminate; reflexivity.
+  - destruct b as [|b'| | | |]; simpl; split; intros H; try discriminate.
+    + apply Bool.eqb_prop in H. now subst.
+    + inversion H; subst. apply Bool.eqb_reflx.
+  - destruct b as [| |n'| | |]; simpl; split; intros H; try discriminate.
+    + apply beq_bytes_eq in H. now subst.
+    + inversion H; subst. apply beq_bytes_refl.
+  - destruct b as [| | |s'| |]; simpl; split; intros H; try discriminate.
+    + apply beq_bytes_eq in H. now subst.
+    + inversion H; subst. apply beq_bytes_refl.
+  - destruct b as [| | | |l'|]; simpl; try (split; intros H; discriminate).
+    assert (Hl : forall2b json_beq l l' = true <-> l = l').
+    { clear -IH. revert l'. induction l as [|x r IHr]; intros [|y r']; simpl;
+        try (split; [reflexivity || discriminate | reflexivity || discriminate]).
+      inversion IH as [|? ? Hx Hr]; subst. rewrite andb_true_iff, (Hx y), (IHr Hr r').
+      split; [intros [? ?]; congruence|intros H; inversion H; auto]. }
+    rewrite Hl. split; congruence.
+  - destruct b as [| | | | |m']; simpl; try (split; intros H; discriminate).
+    assert (Hm : members2b json_beq m m' = true <-> m = m').
+    { clear -IH. revert m'. induction m as [|[k x] r IHr]; intros [|[k' y] r']; simpl;
+        try (split; [reflexivity || discriminate | reflexivity || discriminate]).
+      inversion IH as [|? ? Hx Hr]; subst. simpl in Hx.
+      rewrite !andb_true_iff, (Hx y), (IHr Hr r'), beq_bytes_eq.
+      split; [intros [[? ?] ?]; congruence|intros H; inversion H; auto]. }
+    rewrite Hm. split; congruence.
+Qed.
+
+Lemma json_beq_refl a : json_beq a a = true.
+Proof. now apply json_beq_eq. Qed.
+
+Lemma json_eq_dec (a b : json) : {a = b} + {a <> b}.
+Proof.
+  destruct (json_beq a b) eqn:E.
+  - left. now apply json_beq_eq.
+  - right. intros H. apply json_beq_eq in H. congruence.
+Qed.
+
+(* ---------- well-formedness ---------- *)
+Lemma wf_json_obj m :
+  wf_json (JObj m) <-> NoDup (keys m) /\ Forall (fun kv => wf_json (snd kv)) m.
+Proof.
+  unfold wf_json. simpl. rewrite andb_true_iff, nodupb_keys_NoDup, forallb_forall, Forall_forall.
+  tauto.
+Qed.
+
+Lemma wf_json_arr l : wf_json (JArr l) <-> Forall wf_json l.
+Proof. unfold wf_json. simpl. rewrite forallb_forall, Forall_forall. tauto. Qed.
+
+Lemma obj_set_values_Forall (P : json -> Prop) k v (m : obj) :
+  P v -> Forall (fun kv => P (snd kv)) m -> Forall (fun kv => P (snd kv)) (obj_set k v m).
+Proof.
+  intros Hv. induction 1 as [|[k' v'] r Hx Hr IH]; simpl.
+  - constructor; [assumption|constructor].
+  - destruct (beq_bytes k k'); constructor; auto.
+Qed.
+
+Lemma obj_del_values_Forall (P : json -> Prop) k (m : obj) :
+  Forall (fun kv => P (snd kv)) m -> Forall (fun kv => P (snd kv)) (obj_del k m).
+Proof.
+  induction 1 as [|[k' v'] r Hx Hr IH]; simpl; [constructor|].
+  destruct (beq_bytes k k'); [assumption|constructor; auto].
+Qed.
+
+Lemma NoDup_keys_obj_del {V} k (m : list (bytes * V)) : NoDup (keys m) -> NoDup (keys (obj_del k m)).
+Proof.
+  induction m as [|[k' v'] r IH]; simpl; intros H; [constructor|].
+  inversion H; subst. destruct (beq_bytes k k'); [auto|]. simpl. constructor; [|auto].
+  rewrite In_keys_obj_del. tauto.
+Qed.
+
+(* decode_last produces unique keys at every level *)
+Lemma decode_last_wf j : wf_json (decode_last j).
+Proof.
+  induction j as [| | | |l IH|m IH] using json_ind'; try reflexivity.
+  - simpl. apply wf_json_arr. rewrite Forall_map. exact IH.
+  - simpl. apply wf_json_obj.
+    set (f := fun (acc : obj) (kv : bytes * json) => obj_set (fst kv) (snd kv) acc).
+    assert (G : forall (l acc : obj),
+               Forall (fun kv => wf_json (snd kv)) l ->
+               NoDup (keys acc) /\ Forall (fun kv => wf_json (snd kv)) acc ->
+               NoDup (keys (fold_left f l acc)) /\ Forall (fun kv => wf_json (snd kv)) (fold_left f l acc)).
+    { induction l as [|[k v] r IHr]; intros acc Hl [Hn Hf]; simpl; [tauto|].
+      inversion Hl; subst. apply IHr; [assumption|]. unfold f. simpl. split.
+      - now apply NoDup_keys_obj_set.
+      - now apply obj_set_values_Forall. }
+    apply G.
+    + rewrite Forall_map. simpl. exact IH.
+    + split; constructor.
+Qed.
+
+(* on a value that already has unique keys decode_last changes nothing observable *)
+Example decode_last_example :
+  decode_last (JObj [([97], JNum [49]); ([98], JNull);
+                     ([97], JObj [([120], JNull); ([120], JBool true)])]%N)
+  = JObj [([97], JObj [([120], JBool true)]); ([98], JNull)]%N.
+Proof. vm_compute. reflexivity. Qed.
